@@ -34,8 +34,17 @@ def gen_job(rng):
     return types, ops, out
 
 
+def bcast_along(t, dim):
+    """t made constant along `dim` (slice 0 expanded back: a stride-0 physical view)"""
+    perm = [dim] + [d for d in range(t.ndim) if d != dim]
+    inv = [perm.index(d) for d in range(t.ndim)]
+    tp = t.permute(perm) if t.ndim > 1 else t
+    e = tp[0].expand(*tp.shape)
+    return e.permute(inv) if t.ndim > 1 else e
+
+
 def run(ctx):
-    n = 70 if ctx.quick else 2000
+    n = 150 if ctx.quick else 2000
     reqs, meta = [], []
     for k in range(n):
         types, ops_ix, out = gen_job(ctx.rng)
@@ -69,6 +78,16 @@ def run(ctx):
                 if t.ndim >= 1 and t.shape[0] > 1:
                     sub = t[0]
                     operands[i] = sub.expand(*t.shape)
+            # ... and a SUMMED index along which every operand that mentions it is a broadcast (the multiplicity n of the sum
+            # must survive: n * x in Real, log n + x in Log)
+            summed = sorted({l for ix in ops_ix for l in ix if l not in out and all(ix2.count(l) <= 1 for ix2 in ops_ix)})
+            if summed and not alias and ctx.rng.random() < 0.3:
+                l = ctx.rng.choice(summed)
+                if ty_numel(types[l]) > 1:
+                    for i, ix in enumerate(ops_ix):
+                        if l in ix:
+                            operands[i] = bcast_along(operands[i], ix.index(l))
+                    ctx.count('summed-index-broadcast-in-all-operands')
             real_side = operands
             if name == 'log':
                 impl_ops = [PatternedTensor(t.physical.log(), t.paxes, t.vaxes, math.log(t.default) if t.default > 0 else -math.inf) for t in operands]
